@@ -106,11 +106,12 @@ func (vm *VM) errIndexOutOfRange() runtimeError {
 
 // newPanic returns a new *PanicError with the given error message.
 func (vm *VM) newPanic(msg any) *PanicError {
-	return &PanicError{
-		message:  msg,
-		path:     vm.fn.InstructionInfo[vm.pc].Path,
-		position: vm.fn.InstructionInfo[vm.pc].Position,
+	p := &PanicError{message: msg}
+	if vm.fn != nil {
+		p.path = vm.fn.InstructionInfo[vm.pc].Path
+		p.position = vm.fn.InstructionInfo[vm.pc].Position
 	}
+	return p
 }
 
 // convertPanic converts a panic to an error.
@@ -121,7 +122,13 @@ func (vm *VM) convertPanic(msg any) error {
 	case outError:
 		return vm.newPanic(err)
 	}
-	switch op := vm.fn.Body[vm.pc-1].Op; op {
+	// There is no current function while a deferred native function is
+	// called after a panic: its panics are those of a native call.
+	op := OpCallNative
+	if vm.fn != nil {
+		op = vm.fn.Body[vm.pc-1].Op
+	}
+	switch op {
 	case OpAddr, OpIndex, -OpIndex, OpIndexRef, -OpIndexRef, OpSetSlice, -OpSetSlice:
 		switch err := msg.(type) {
 		case runtime.Error:
